@@ -362,6 +362,35 @@ pub fn part_conn(out: &mut Out, o: &Opts) {
             }
         }
     }
+    // operands that did not come out of mk_choice (ordered, with redundant and dead tests): the connectives are stated for every diagram
+    {
+        let leaf = |b: bool| Sx::a(if b { "T" } else { "F" });
+        let node = |t: Sx, v: usize, f: Sx| Sx::l(vec![Sx::a("R"), t, Sx::n(v), f]);
+        let mut subs: Vec<Sx> = vec![leaf(false), leaf(true)];
+        for t in [false, true] {
+            for f in [false, true] {
+                subs.push(node(leaf(t), 1, leaf(f)));
+            }
+        }
+        let mut raws: Vec<Sx> = vec![];
+        for t in &subs {
+            for f in &subs {
+                raws.push(node(t.clone(), 0, f.clone()));
+            }
+        }
+        for a in &raws {
+            g.case(Sx::op("not", vec![a.clone()]));
+            for b in &raws {
+                for op in BIN {
+                    g.case(Sx::op(op, vec![a.clone(), b.clone()]));
+                }
+            }
+            for n in [23u128, 105, 232] {
+                g.case(Sx::op("and", vec![a.clone(), tt(&[0, 1, 2], n)]));
+                g.case(Sx::op("or", vec![tt(&[1, 2, 3], n), a.clone()]));
+            }
+        }
+    }
     // ite: all triples of two-variable functions
     for (va, vb, vc) in [([0usize, 1], [1usize, 2], [0usize, 2]), ([1, 2], [1, 2], [0, 3])] {
         for i in 0..16u128 {
@@ -448,6 +477,30 @@ pub fn part_quant(out: &mut Out, o: &Opts) {
     let mut g = Gen::new(out);
     let lists = lists_upto(&[0, 1, 2, 3, 4], 3);
     let vars = [1usize, 2, 3];
+    // unreduced ordered operands (nodes allocated through the public enum)
+    {
+        let leaf = |b: bool| Sx::a(if b { "T" } else { "F" });
+        let node = |t: Sx, v: usize, f: Sx| Sx::l(vec![Sx::a("R"), t, Sx::n(v), f]);
+        let mut subs: Vec<Sx> = vec![leaf(false), leaf(true)];
+        for t in [false, true] {
+            for f in [false, true] {
+                subs.push(node(leaf(t), 2, leaf(f)));
+            }
+        }
+        for t in &subs {
+            for f in &subs {
+                let a = node(t.clone(), 1, f.clone());
+                for l in lists_upto(&[0, 1, 2, 3], 2) {
+                    let vs = Sx::l(l.iter().map(Sx::n).collect());
+                    g.case(Sx::op("ex", vec![vs.clone(), a.clone()]));
+                    g.case(Sx::op("all", vec![vs, a.clone()]));
+                }
+                for v in 0..4usize {
+                    g.case(Sx::op("ex1", vec![Sx::n(v), a.clone()]));
+                }
+            }
+        }
+    }
     for n in 0..256u128 {
         for l in &lists {
             let vs = Sx::l(l.iter().map(Sx::n).collect());
